@@ -8,35 +8,39 @@ open Model Model.Col Model.TypeStr Model.Results Model.Parser
 
 /-- **count mismatch is an error** and nothing is read or bound (a block without rows may be
 decoded without any target: the schema-only header block) -/
-theorem C18_count_mismatch (x : Ext) (cfg : Cfg) (v : Nat) (ts : List Target) (columns rows : Nat) (bs : Bytes)
+theorem C18_count_mismatch (x : Ext) (inf : Inf) (cfg : Cfg) (v : Nat) (ts : List Target) (columns rows : Nat) (bs : Bytes)
     (h : columns ≠ ts.length) (h2 : ¬ (ts = [] ∧ rows = 0)) :
-    decodeResult x cfg v ts columns rows bs = (ts, .fail .invalid) := by
+    decodeResult x inf cfg v ts columns rows bs = (ts, .fail .invalid) := by
   unfold decodeResult
   have hc : columns ≠ ts.length ∧ ¬ (ts.isEmpty = true ∧ rows = 0) :=
     ⟨h, fun hh => h2 ⟨List.isEmpty_iff.mp hh.1, hh.2⟩⟩
   rw [if_pos hc]
 
 /-- one step of the loop on a non-empty target list -/
-theorem C18.bindLoop_step (x : Ext) (cfg : Cfg) (v rows n : Nat) (t : Target) (rest : List Target) (bs : Bytes) :
-    bindLoop x cfg v rows false (n + 1) (t :: rest) bs =
+theorem C18.bindLoop_step (x : Ext) (inf : Inf) (cfg : Cfg) (v rows n : Nat) (t : Target) (rest : List Target) (bs : Bytes) :
+    bindLoop x inf cfg v rows false (n + 1) (t :: rest) bs =
       match header cfg v bs with
       | .ok ((name, ty), bs1) =>
           let t1 := if t.name.isEmpty then { t with name := name } else t
           if t1.name ≠ name then (t1 :: rest, .fail .invalid)
-          else if conflicts x ty t1.tyName then (t1 :: rest, .fail .invalid)
           else
-            let t2 := { t1 with data := t1.ty.empty }
-            if rows = 0 then
-              let (rest', s) := bindLoop x cfg v rows false n rest bs1
-              (t2 :: rest', s)
-            else
-              match (do decState t2.ty; decCol cfg t2.ty rows : Parser Col) bs1 with
-              | .ok (c, bs2) =>
-                let (rest', s) := bindLoop x cfg v rows false n rest bs2
-                ({ t2 with data := c } :: rest', s)
-              | .err e => (t2 :: rest, .fail e)
-              | .panic => (t2 :: rest, .fail .other)
-              | .oom => (t2 :: rest, .fail .other)
+            match inf t1 ty with
+            | none => (t1 :: rest, .fail .invalid)
+            | some ta =>
+              if conflicts x ty ta.tyName then (ta :: rest, .fail .invalid)
+              else
+                let t2 := { ta with data := ta.ty.empty }
+                if rows = 0 then
+                  let (rest', s) := bindLoop x inf cfg v rows false n rest bs1
+                  (t2 :: rest', s)
+                else
+                  match (do decState t2.ty; decCol cfg t2.ty rows : Parser Col) bs1 with
+                  | .ok (c, bs2) =>
+                    let (rest', s) := bindLoop x inf cfg v rows false n rest bs2
+                    ({ t2 with data := c } :: rest', s)
+                  | .err e => (t2 :: rest, .fail e)
+                  | .panic => (t2 :: rest, .fail .other)
+                  | .oom => (t2 :: rest, .fail .other)
       | .err e => (t :: rest, .fail e)
       | .panic => (t :: rest, .fail .other)
       | .oom => (t :: rest, .fail .other) := by
@@ -44,53 +48,52 @@ theorem C18.bindLoop_step (x : Ext) (cfg : Cfg) (v rows n : Nat) (t : Target) (r
   rfl
 
 /-- **name mismatch at the first column is an error**, and no target receives anything -/
-theorem C18_name_mismatch (x : Ext) (cfg : Cfg) (v rows n : Nat) (t : Target) (rest : List Target) (bs bs1 name ty : Bytes)
+theorem C18_name_mismatch (x : Ext) (inf : Inf) (cfg : Cfg) (v rows n : Nat) (t : Target) (rest : List Target) (bs bs1 name ty : Bytes)
     (hh : header cfg v bs = .ok ((name, ty), bs1)) (hne : t.name ≠ []) (hn : t.name ≠ name) :
-    bindLoop x cfg v rows false (n + 1) (t :: rest) bs = (t :: rest, .fail .invalid) := by
+    bindLoop x inf cfg v rows false (n + 1) (t :: rest) bs = (t :: rest, .fail .invalid) := by
   rw [C18.bindLoop_step, hh]
   have he : t.name.isEmpty = false := by cases h : t.name <;> simp_all
   simp [he, hn]
 
-/-- **type conflict is an error**, target data untouched (only a blank name may have been filled) -/
-theorem C18_type_mismatch (x : Ext) (cfg : Cfg) (v rows n : Nat) (t : Target) (rest : List Target) (bs bs1 ty : Bytes)
-    (hh : header cfg v bs = .ok ((t.name, ty), bs1)) (hne : t.name ≠ []) (hc : conflicts x ty t.tyName = true) :
-    bindLoop x cfg v rows false (n + 1) (t :: rest) bs = (t :: rest, .fail .invalid) := by
+/-- **a target that cannot adopt the server's type is an error**; its contents are untouched -/
+theorem C18_adoption_failure (x : Ext) (inf : Inf) (cfg : Cfg) (v rows n : Nat) (t : Target) (rest : List Target) (bs bs1 ty : Bytes)
+    (hh : header cfg v bs = .ok ((t.name, ty), bs1)) (hne : t.name ≠ []) (hi : inf t ty = none) :
+    bindLoop x inf cfg v rows false (n + 1) (t :: rest) bs = (t :: rest, .fail .invalid) := by
   rw [C18.bindLoop_step, hh]
   have he : t.name.isEmpty = false := by cases h : t.name <;> simp_all
-  simp [he, hc]
+  simp [he, hi]
 
-/-- a column flagged as custom-serialized is refused -/
-theorem C18_custom_serialization_refused (cfg : Cfg) (v : Nat) (hv : v ≥ 54454) (name ty rest : Bytes)
-    (hn : Parser.str cfg.strLim cfg.cap (putUvarint name.length ++ name ++ (putUvarint ty.length ++ ty ++ (1 :: rest))) =
-      .ok (name, putUvarint ty.length ++ ty ++ (1 :: rest)))
-    (ht : Parser.str cfg.strLim cfg.cap (putUvarint ty.length ++ ty ++ (1 :: rest)) = .ok (ty, 1 :: rest)) :
-    header cfg v (putUvarint name.length ++ name ++ (putUvarint ty.length ++ ty ++ (1 :: rest))) = .err .invalid := by
-  unfold header
-  rw [bind_ok' hn, bind_ok' ht]
-  simp only [hv, ↓reduceIte]
-  have hb : Parser.bool (1 :: rest) = .ok (true, rest) := rfl
-  rw [bind_ok' hb]
-  rfl
+/-- **type conflict is an error**: the type reported *after adoption* is what is compared; target data untouched
+(only a blank name may have been filled and the parameters adopted) -/
+theorem C18_type_mismatch (x : Ext) (inf : Inf) (cfg : Cfg) (v rows n : Nat) (t ta : Target) (rest : List Target) (bs bs1 ty : Bytes)
+    (hh : header cfg v bs = .ok ((t.name, ty), bs1)) (hne : t.name ≠ []) (hi : inf t ty = some ta)
+    (hc : conflicts x ty ta.tyName = true) :
+    bindLoop x inf cfg v rows false (n + 1) (t :: rest) bs = (ta :: rest, .fail .invalid) := by
+  rw [C18.bindLoop_step, hh]
+  have he : t.name.isEmpty = false := by cases h : t.name <;> simp_all
+  simp [he, hi, hc]
 
-/-- what may have happened to a target when the loop stops: type and reported type unchanged, a
-non-blank name unchanged, and the data either untouched, or reset, or decoded *as this target's
-own type from the stream position of its own column* -/
-def C18.Rel (cfg : Cfg) (rows : Nat) (t t' : Target) : Prop :=
-  t'.ty = t.ty ∧ t'.tyName = t.tyName ∧ (t.name ≠ [] → t'.name = t.name) ∧
-  (t'.data = t.data ∨ t'.data = t.ty.empty ∨
-    ∃ inp r, (do decState t.ty; decCol cfg t.ty rows : Parser Col) inp = .ok (t'.data, r))
+/-- what may have happened to a target when the loop stops: a non-blank name unchanged; its type either unchanged
+or what `Infer` made of it from the header of its own column; and the data either untouched, or reset, or decoded
+*as this target's (adopted) type from the stream position of its own column* -/
+def C18.Rel (inf : Inf) (cfg : Cfg) (rows : Nat) (t t' : Target) : Prop :=
+  (t.name ≠ [] → t'.name = t.name) ∧
+  ((t'.ty = t.ty ∧ t'.tyName = t.tyName) ∨
+    ∃ t1 ty ta, inf t1 ty = some ta ∧ t1.ty = t.ty ∧ t1.tyName = t.tyName ∧ t'.ty = ta.ty ∧ t'.tyName = ta.tyName) ∧
+  (t'.data = t.data ∨ t'.data = t'.ty.empty ∨
+    ∃ inp r, (do decState t'.ty; decCol cfg t'.ty rows : Parser Col) inp = .ok (t'.data, r))
 
 /-- pointwise relation between two lists of equal length -/
 inductive C18.All2 {α β} (R : α → β → Prop) : List α → List β → Prop
   | nil : All2 R [] []
   | cons {a b as bs} : R a b → All2 R as bs → All2 R (a :: as) (b :: bs)
 
-theorem C18.Rel.refl (cfg : Cfg) (rows : Nat) (t : Target) : C18.Rel cfg rows t t :=
-  ⟨rfl, rfl, fun _ => rfl, Or.inl rfl⟩
+theorem C18.Rel.refl (inf : Inf) (cfg : Cfg) (rows : Nat) (t : Target) : C18.Rel inf cfg rows t t :=
+  ⟨fun _ => rfl, Or.inl ⟨rfl, rfl⟩, Or.inl rfl⟩
 
-theorem C18.forall2_refl (cfg : Cfg) (rows : Nat) : ∀ ts : List Target, C18.All2 (C18.Rel cfg rows) ts ts
+theorem C18.forall2_refl (inf : Inf) (cfg : Cfg) (rows : Nat) : ∀ ts : List Target, C18.All2 (C18.Rel inf cfg rows) ts ts
   | [] => .nil
-  | t :: ts => .cons (C18.Rel.refl cfg rows t) (C18.forall2_refl cfg rows ts)
+  | t :: ts => .cons (C18.Rel.refl inf cfg rows t) (C18.forall2_refl inf cfg rows ts)
 
 /-- the visited target after the name step keeps type, reported type, non-blank name and data -/
 theorem C18.name_step (t : Target) (name : Bytes) :
@@ -103,14 +106,16 @@ theorem C18.name_step (t : Target) (name : Bytes) :
   · exact ⟨rfl, rfl, fun _ => rfl, rfl⟩
 
 /-- **Success is sound, and every outcome keeps columns apart**: whatever the loop returns —
-completion or an error at any column — every target is related to its original by `Rel`: same
-type, a given name kept, and its data is untouched, reset, or what was decoded for *its own*
-column.  No target ever holds data decoded for another position.  By induction over the columns. -/
-theorem C18_binding_invariant (x : Ext) (cfg : Cfg) (v rows : Nat) : ∀ (n : Nat) (ts : List Target) (bs : Bytes),
-    C18.All2 (C18.Rel cfg rows) ts (bindLoop x cfg v rows false n ts bs).1 := by
+completion or an error at any column — every target is related to its original by `Rel`: a given name kept,
+its type its own or adopted from its own column's header, and its data untouched, reset, or what was decoded for
+*its own* column.  No target ever holds data decoded for another position.  For every `Infer` that leaves names and
+contents alone; by induction over the columns. -/
+theorem C18_binding_invariant (x : Ext) (inf : Inf) (hinf : InfOK inf) (cfg : Cfg) (v rows : Nat) :
+    ∀ (n : Nat) (ts : List Target) (bs : Bytes),
+      C18.All2 (C18.Rel inf cfg rows) ts (bindLoop x inf cfg v rows false n ts bs).1 := by
   intro n
   induction n with
-  | zero => intro ts bs; exact C18.forall2_refl cfg rows ts
+  | zero => intro ts bs; exact C18.forall2_refl inf cfg rows ts
   | succ n ih =>
     intro ts bs
     cases ts with
@@ -124,9 +129,9 @@ theorem C18_binding_invariant (x : Ext) (cfg : Cfg) (v rows : Nat) : ∀ (n : Na
     | cons t rest =>
       rw [C18.bindLoop_step]
       cases hh : header cfg v bs with
-      | err e => exact C18.forall2_refl cfg rows _
-      | panic => exact C18.forall2_refl cfg rows _
-      | oom => exact C18.forall2_refl cfg rows _
+      | err e => exact C18.forall2_refl inf cfg rows _
+      | panic => exact C18.forall2_refl inf cfg rows _
+      | oom => exact C18.forall2_refl inf cfg rows _
       | ok a =>
         obtain ⟨⟨name, ty⟩, bs1⟩ := a
         have hk := C18.name_step t name
@@ -134,33 +139,42 @@ theorem C18_binding_invariant (x : Ext) (cfg : Cfg) (v rows : Nat) : ∀ (n : Na
         generalize (if t.name.isEmpty then { t with name := name } else t) = t1 at hk ⊢
         obtain ⟨k1, k2, k3, k4⟩ := hk
         split
-        · exact .cons ⟨k1, k2, k3, Or.inl k4⟩ (C18.forall2_refl cfg rows rest)
-        · split
-          · exact .cons ⟨k1, k2, k3, Or.inl k4⟩ (C18.forall2_refl cfg rows rest)
-          · split
-            · have := ih rest bs1
-              generalize bindLoop x cfg v rows false n rest bs1 = res at this ⊢
-              obtain ⟨rest', s⟩ := res
-              exact .cons ⟨k1, k2, k3, Or.inr (Or.inl (by simp [k1]))⟩ this
-            · cases hdc : (do decState t1.ty; decCol cfg t1.ty rows : Parser Col) bs1 with
-              | ok cr =>
-                obtain ⟨c, bs2⟩ := cr
-                have := ih rest bs2
-                simp only
-                generalize bindLoop x cfg v rows false n rest bs2 = res at this ⊢
+        · exact .cons ⟨k3, Or.inl ⟨k1, k2⟩, Or.inl k4⟩ (C18.forall2_refl inf cfg rows rest)
+        · cases hi : inf t1 ty with
+          | none => exact .cons ⟨k3, Or.inl ⟨k1, k2⟩, Or.inl k4⟩ (C18.forall2_refl inf cfg rows rest)
+          | some ta =>
+            obtain ⟨a1, a2⟩ := hinf t1 ty ta hi
+            have hname : t.name ≠ [] → ta.name = t.name := fun h => by rw [a1]; exact k3 h
+            have hty : ∃ t1' ty' ta', inf t1' ty' = some ta' ∧ t1'.ty = t.ty ∧ t1'.tyName = t.tyName ∧
+                ta.ty = ta'.ty ∧ ta.tyName = ta'.tyName := ⟨t1, ty, ta, hi, k1, k2, rfl, rfl⟩
+            simp only
+            split
+            · exact .cons ⟨hname, Or.inr hty, Or.inl (by rw [a2]; exact k4)⟩ (C18.forall2_refl inf cfg rows rest)
+            · split
+              · have := ih rest bs1
+                generalize bindLoop x inf cfg v rows false n rest bs1 = res at this ⊢
                 obtain ⟨rest', s⟩ := res
-                exact .cons ⟨k1, k2, k3, Or.inr (Or.inr ⟨bs1, bs2, by rw [← k1]; exact hdc⟩)⟩ this
-              | err e => exact .cons ⟨k1, k2, k3, Or.inr (Or.inl (by simp [k1]))⟩ (C18.forall2_refl cfg rows rest)
-              | panic => exact .cons ⟨k1, k2, k3, Or.inr (Or.inl (by simp [k1]))⟩ (C18.forall2_refl cfg rows rest)
-              | oom => exact .cons ⟨k1, k2, k3, Or.inr (Or.inl (by simp [k1]))⟩ (C18.forall2_refl cfg rows rest)
+                exact .cons ⟨hname, Or.inr hty, Or.inr (Or.inl rfl)⟩ this
+              · cases hdc : (do decState ta.ty; decCol cfg ta.ty rows : Parser Col) bs1 with
+                | ok cr =>
+                  obtain ⟨c, bs2⟩ := cr
+                  have := ih rest bs2
+                  simp only
+                  generalize bindLoop x inf cfg v rows false n rest bs2 = res at this ⊢
+                  obtain ⟨rest', s⟩ := res
+                  exact .cons ⟨hname, Or.inr hty, Or.inr (Or.inr ⟨bs1, bs2, hdc⟩)⟩ this
+                | err e => exact .cons ⟨hname, Or.inr hty, Or.inr (Or.inl rfl)⟩ (C18.forall2_refl inf cfg rows rest)
+                | panic => exact .cons ⟨hname, Or.inr hty, Or.inr (Or.inl rfl)⟩ (C18.forall2_refl inf cfg rows rest)
+                | oom => exact .cons ⟨hname, Or.inr hty, Or.inr (Or.inl rfl)⟩ (C18.forall2_refl inf cfg rows rest)
 
 /-- **Success is sound**: if binding completes, the first column's header was read, the target's
-name was blank or equal to the column's, and the types do not conflict (and, by the same
-statement applied to the rest of the loop, so for every later column in order). -/
-theorem C18_success_sound_step (x : Ext) (cfg : Cfg) (v rows n : Nat) (t : Target) (rest ts' : List Target)
-    (bs r : Bytes) (h : bindLoop x cfg v rows false (n + 1) (t :: rest) bs = (ts', .done r)) :
-    ∃ name ty bs1, header cfg v bs = .ok ((name, ty), bs1) ∧ (t.name = [] ∨ t.name = name) ∧
-      conflicts x ty t.tyName = false := by
+name was blank or equal to the column's, the target could adopt the server's type, and the adopted type does not
+conflict with it (and, by the same statement applied to the rest of the loop, so for every later column in order). -/
+theorem C18_success_sound_step (x : Ext) (inf : Inf) (cfg : Cfg) (v rows n : Nat) (t : Target) (rest ts' : List Target)
+    (bs r : Bytes) (h : bindLoop x inf cfg v rows false (n + 1) (t :: rest) bs = (ts', .done r)) :
+    ∃ name ty bs1 ta, header cfg v bs = .ok ((name, ty), bs1) ∧ (t.name = [] ∨ t.name = name) ∧
+      inf (if t.name.isEmpty then { t with name := name } else t) ty = some ta ∧
+      conflicts x ty ta.tyName = false := by
   rw [C18.bindLoop_step] at h
   cases hh : header cfg v bs with
   | err e => rw [hh] at h; simp at h
@@ -170,27 +184,34 @@ theorem C18_success_sound_step (x : Ext) (cfg : Cfg) (v rows n : Nat) (t : Targe
     obtain ⟨⟨name, ty⟩, bs1⟩ := a
     rw [hh] at h
     simp only at h
-    refine ⟨name, ty, bs1, rfl, ?_, ?_⟩
-    · by_cases he : t.name.isEmpty = true
+    have hname : t.name = [] ∨ t.name = name := by
+      by_cases he : t.name.isEmpty = true
       · exact Or.inl (List.isEmpty_iff.mp he)
       · right
         simp only [he, Bool.false_eq_true, ↓reduceIte] at h
         by_cases hn : t.name = name
         · exact hn
         · simp [hn] at h
-    · by_cases hc : conflicts x ty t.tyName = true
-      · exfalso
-        by_cases he : t.name.isEmpty = true
-        · simp only [he, ↓reduceIte] at h
-          split at h
-          · simp at h
-          · simp [hc] at h
-        · simp only [he, Bool.false_eq_true, ↓reduceIte] at h
-          split at h
-          · simp at h
-          · simp [hc] at h
-      · simpa using hc
+    obtain ⟨t1, ht1⟩ : ∃ t1, t1 = (if t.name.isEmpty then { t with name := name } else t) := ⟨_, rfl⟩
+    rw [← ht1] at h
+    by_cases hn : t1.name ≠ name
+    · rw [if_pos hn] at h; simp at h
+    · rw [if_neg hn] at h
+      cases hi : inf t1 ty with
+      | none => rw [hi] at h; simp at h
+      | some ta =>
+        rw [hi] at h
+        simp only at h
+        refine ⟨name, ty, bs1, ta, rfl, hname, by rw [← ht1]; exact hi, ?_⟩
+        by_cases hc : conflicts x ty ta.tyName = true
+        · simp [hc] at h
+        · simpa using hc
 
+/-- a target that is not `Inferable` satisfies the hypothesis of the invariant -/
+theorem C18_noInf_ok : InfOK noInf := by
+  intro t ty t' h
+  simp only [noInf, Option.some.injEq] at h
+  subst h; exact ⟨rfl, rfl⟩
 
 /-! ## Adoption of the server's type parameters by inferable targets (`Infer` on typed columns) -/
 section Adoption
